@@ -99,10 +99,12 @@ var (
 		[]int{0, 1, 2, 3, 4, 5, 6, 7}, true, true, 3}
 	alphaMid = alphabet{"mid", []int{0, 1}, []int{0, 1, 2}, []int{0, 1}, []int{0, 1}, []int{3, 4, 5, 2}, []int{2, 0}, 2,
 		[]int{0, 1, 2, 3, 4}, true, true, 3}
-	alphaLow = alphabet{"low", []int{0, 1}, []int{1, 2}, []int{1}, []int{1}, []int{3, 4, 2}, []int{2}, 1,
+	alphaLow = alphabet{"low", []int{0, 1}, []int{1, 2}, []int{1}, []int{0}, []int{3, 4, 2}, []int{2}, 1,
 		[]int{0, 1, 3, 4}, false, true, 3}
 	alphaSmall = alphabet{"small", []int{1}, []int{1, 2}, []int{1}, []int{0}, []int{4, 2}, []int{2}, 0,
 		[]int{0, 1, 4}, false, true, 3}
+	alphaSmall2 = alphabet{"small2", []int{1}, []int{1, 2}, []int{1}, []int{0}, []int{4, 2}, []int{2}, 0,
+		[]int{0, 4}, false, true, 3}
 	alphaTiny = alphabet{"tiny", []int{1}, []int{1, 2}, []int{1}, []int{0}, []int{4}, []int{2}, 0,
 		[]int{0, 4}, false, false, 3}
 )
@@ -115,7 +117,7 @@ type cLayer struct {
 // layers: (alphabet, exact size) pairs, simplest first
 func cLayers(th bool) []cLayer {
 	if th {
-		return []cLayer{{alphaFull, 1}, {alphaFull, 2}, {alphaFull, 3}, {alphaLow, 4}, {alphaSmall, 5}, {alphaTiny, 6}}
+		return []cLayer{{alphaFull, 1}, {alphaFull, 2}, {alphaFull, 3}, {alphaLow, 4}, {alphaSmall2, 5}, {alphaTiny, 6}}
 	}
 	return []cLayer{{alphaFull, 1}, {alphaFull, 2}, {alphaMid, 3}, {alphaSmall, 4}, {alphaTiny, 5}}
 }
